@@ -66,6 +66,14 @@ def validate_models() -> None:
         raise HarnessError("bip32_ref vector 1")
     if d["parent_fingerprint"].hex() != "d880d7d8":
         raise HarnessError("bip32_ref fingerprint")
+    # the public side of the model: m/0H/1 derived from m/0H's public key is the point of the private derivation
+    from vlib.models import bip340_ref as _b
+
+    a = ref.derive_priv(seed, [H])
+    b = ref.derive_priv(seed, [H, 1])
+    K, c = ref.ckd_pub(_b.point_mul(_b.G, a["k"]), a["chain_code"], 1)
+    if K != _b.point_mul(_b.G, b["k"]) or c != b["chain_code"]:
+        raise HarnessError("bip32_ref public derivation")
 
 
 def index_st():
@@ -95,12 +103,22 @@ def _xprv_fields(x: BIP32KeyData):
 # ---------------------------------------------------------------- equations + laws
 @st.composite
 def derive_case(draw, max_depth=12):
-    path = draw(st.lists(index_st(), max_size=max_depth))
+    if max_depth > 12:
+        # the length is drawn, not left to the list strategy (which almost never goes beyond a few dozen elements): the boundary depths and the range between
+        length = draw(st.one_of(st.sampled_from([13, 64, 128, 254, 255, 255]), st.integers(13, max_depth)))
+        path = draw(st.lists(index_st(), min_size=length, max_size=length))
+    else:
+        path = draw(st.lists(index_st(), max_size=max_depth))
+    pub_from = draw(st.integers(0, max(len(path), 1)))
+    if max_depth > 12 and draw(st.integers(0, 3)):
+        # a long public tail: every step after the neutering point unhardened (a random index is hardened every other time, and a long
+        # path would never be derived publicly); one deep case in four keeps the hardened step that must be refused
+        path = path[:pub_from] + [i % H for i in path[pub_from:]]
     return {
         "seed": draw(seeds()), "path": path, "version": draw(st.integers(0, len(VERSIONS) - 1)),
         "spelling": draw(st.sampled_from(["list", "bytes", "h", "'", "H", "m-prefix"])),
         "split": draw(st.integers(0, max(len(path), 1))), "backend": draw(st.booleans()),
-        "pub_from": draw(st.integers(0, max(len(path), 1))),
+        "pub_from": pub_from,
     }
 
 
@@ -144,7 +162,7 @@ def check_derive(case):
         if any(i >= H for i in tail):
             try:
                 derive_(anc_pub, tail)
-            except BTClibValueError:
+            except (BTClibValueError, BTClibTypeError):
                 return Outcome(len(path) >= 2, ("hardened-from-public-refused", f"bindings={case['backend']}"))
             raise Violation(f"laws:hardened-from-public-answered:bindings={case['backend']}", f"tail={tail}")
         pub_child = derive_(anc_pub, spell(tail, case["spelling"]))
@@ -165,32 +183,64 @@ def check_derive(case):
         if indexes_from_der_path(str_from_der_path(path)) != list(path) or indexes_from_der_path(bytes_from_der_path(path)) != list(path):
             raise Violation("equations:der-path-roundtrip", f"path={path}")
     nt = len(path) >= 2 or any(i in (H - 1, H, H + 1, 2 * H - 1) for i in path)
-    return Outcome(nt, (f"depth={min(len(path), 5)}", VERSIONS[case["version"]][0], f"bindings={case['backend']}", case["spelling"]))
+    depth_tag = f"depth={min(len(path), 5)}" if len(path) <= 12 else "depth=13..99" if len(path) < 100 else "depth=100..254" if len(path) < 255 else "depth=255"
+    return Outcome(nt, (depth_tag, VERSIONS[case["version"]][0], f"bindings={case['backend']}", case["spelling"]))
 
 
 # ---------------------------------------------------------------- invalid child (fault injection)
-class _FakeDigest:
-    def __init__(self, d):
-        self._d = d
+class _FaultedHmac:
+    """The real HMAC object with its digest replaced when, at the time the digest is asked, it is the one of the faulted step."""
+
+    def __init__(self, proxy, key, real):
+        self._proxy, self._key, self._real, self._fed = proxy, bytes(key), real, b""
+
+    def update(self, data):
+        self._fed += bytes(data)
+        return self._real.update(data)
+
+    def copy(self):
+        other = _FaultedHmac(self._proxy, self._key, self._real.copy())
+        other._fed = self._fed
+        return other
 
     def digest(self):
-        return self._d
+        real = self._real.digest()
+        self._proxy.calls += 1
+        # the faulted step is named by what is hashed (the parent's chain code as key, the child's index as the last four bytes), not by how many
+        # HMACs the library computed before it
+        if self._key == self._proxy.chain_code and self._fed[-4:] == self._proxy.index4:
+            self._proxy.injected += 1
+            return self._proxy.make_digest(real)
+        return real
+
+    def hexdigest(self):
+        return self.digest().hex()
+
+    def __getattr__(self, name):
+        return getattr(self._real, name)
 
 
 class _HmacProxy:
     """Stands in for the `hmac` module inside btclib.bip32.bip32 during one call."""
 
-    def __init__(self, at_call, make_digest):
+    def __init__(self, chain_code, index4, make_digest):
         self.calls = 0
-        self.at_call = at_call
+        self.injected = 0
+        self.chain_code, self.index4 = chain_code, index4
         self.make_digest = make_digest
 
     def new(self, key, msg=None, digestmod=""):
-        real = _hmac.new(key, msg, digestmod).digest()
-        self.calls += 1
-        if self.calls - 1 == self.at_call:
-            return _FakeDigest(self.make_digest(real))
-        return _FakeDigest(real)
+        try:
+            h = _FaultedHmac(self, key, _hmac.new(key, None, digestmod))
+            if msg is not None:
+                h.update(msg)
+            return h
+        except Exception as e:  # noqa: BLE001  a fault of this stand-in is not the library's
+            raise HarnessError(f"hmac stand-in: {type(e).__name__}: {e}") from e
+
+    def digest(self, key, msg, digest):
+        h = self.new(key, msg, digest)
+        return h.digest()
 
     def __getattr__(self, name):
         return getattr(_hmac, name)
@@ -228,18 +278,19 @@ def check_invalid(case):
     with backend(case["backend"]):
         root = rootxprv_from_seed_(seed)
         start = xpub_from_xprv_(root) if case["public"] else root
-        proxy = _HmacProxy(step, make)
+        proxy = _HmacProxy(parent["chain_code"], path[step].to_bytes(4, "big"), make)
         real_mod = lib_bip32.hmac
         lib_bip32.hmac = proxy
         try:
             try:
                 out = derive_(start, path)
-            except BTClibValueError:
+            except (BTClibValueError, BTClibTypeError):
                 out = None
         finally:
             lib_bip32.hmac = real_mod
-        if proxy.calls <= step:
-            raise HarnessError(f"fault never injected: {proxy.calls} hmac calls for step {step}")
+        if not proxy.injected:
+            # the library no longer reaches HMAC through the name this stand-in replaces (or hashes something else): no invalid child was made, nothing to judge
+            return Outcome(False, (case["fault"], "injection-not-in-effect"))
     if out is not None:
         raise Violation(f"invalid_child:answered:{case['fault']}:public={case['public']}:bindings={case['backend']}", f"path={path} step={step} -> index={out.index} key={out.key.hex()}")
     return Outcome(True, (case["fault"], f"public={case['public']}", f"bindings={case['backend']}"))
@@ -309,7 +360,7 @@ def check_refusal(case):
 
 SUBCHECKS = [
     SubCheck("equations_and_laws", check_derive, "six fields of private and public derivation vs BIP32 model; split/neuter/crack laws; non-trivial: depth>=2 or an index on a 2^31 boundary", lambda: derive_case(12), quick=900, thorough=8000),
-    SubCheck("deep_paths", check_derive, "same with paths up to depth 255", lambda: derive_case(255), quick=24, thorough=600),
+    SubCheck("deep_paths", check_derive, "same with paths up to depth 255", lambda: derive_case(255), quick=24, thorough=600, shards=8),
     SubCheck("invalid_child", check_invalid, "HMAC output forced to left>=n / zero child key / child at infinity at a generated step: must raise, never answer; non-trivial: all", invalid_case, quick=600, thorough=6000),
     SubCheck("account_range", check_account, "derive_from_account_range_ == element-wise derive", account_case, quick=300, thorough=3000),
     SubCheck("refusals", check_refusal, "documented refusals: depth>255, index outside 0..2^32-1, seed size, ragged byte path, foreign forced version", refusal_case, quick=100, thorough=600),
